@@ -154,7 +154,7 @@ def make_state(seed):
     elif kind == "class":
         src = render.render_class(desc, "Config", quote_code=ch.chance("quote_code", 0.7))
         if with_body:
-            src += "\n    def __init__(self, extra: int = 1):\n        \"\"\"\n        Construct.\n\n        :param extra: the extra\n        \"\"\"\n        self.extra = extra\n"
+            src += "\n    def __init__(self, %sextra: int = 1):" % ("/, " if ch.chance("posonly", 0.4) else "") + "\n        \"\"\"\n        Construct.\n\n        :param extra: the extra\n        \"\"\"\n        self.extra = extra\n"
     else:
         src = render.render_argparse(desc)
     if kind in ("function", "method_in_class") and ch.chance("emptydoc", 0.15):
